@@ -4,3 +4,8 @@ claimed["C05"] = (
  "Decides on every path of the current source that only Whisper.Sync can move bytes to the file (who may call Flush/fsync/WriteAt/Truncate/OpenFile, incl. inside the filebuffer dependency), that Sync is flush-then-fsync with both errors surfaced, that Close reaches no write, that header and length are fixed in Create/Open, and that every cmd function that mutates a handle passes a checked Sync on it before any success return and nothing fallible follows the Sync of an existing destination. A necessary structural condition of C05, not the behaviour itself.",
  "Not decided: page-level equality of a reopened handle (correctness of filebuffer's page arithmetic), torn writes inside one Flush, pwritevFull swallowing write errors in the dependency.",
  "DESIGN.md 5 (C05)")
+claimed["C13"] = (
+ "static must-pass-through on SSA control flow (close on every failure path, lock on every success path), constant and who-may-call rules",
+ "Decides on every path of the current source the lock discipline C13 rests on: a failed Open/Create closes the descriptor after the lock was taken; openAndLockFile takes a blocking LOCK_EX on the descriptor it opened on every success path (only bypass: the handle's flock option), closes on lock failure and touches nothing before the lock; the default is locked and the module never opts out; only openAndLockFile calls flock; the library never hands out a handle whose descriptor it closed; server-reachable code closes every handle it opens. Necessary structural conditions of C13.",
+ "Not decided: lost-update freedom and page-mixture freedom under real schedules (consequences of flock semantics and of this discipline), behaviour of flock across processes/filesystems.",
+ "DESIGN.md 5 (C13)")
